@@ -31,9 +31,9 @@ func Spec() *run.Spec {
 	return &run.Spec{
 		ID: "C04", Level: "exploration",
 		Rule: "case = one generated well-formed mesh (point cloud or triangle mesh; index pattern unwelded/permutation/welded/unreferenced/repeated+degenerate/random/no faces; " +
-			"0..40 vertices (10 % up to 300), 'large' phase: directed sizes 65 535/65 536/65 537/70 001/131 073 (thorough also 200 003/262 145/300 007) then random 2 000..20 000 (thorough ..60 000); 2 % of the roundtrip cases are the directed triangle mesh whose only attribute is TexCoord (vertex element without properties); any subset of Position/Normal/Color(RGB|RGBA)/FDC/Opacity/Scale/Rotation/TexCoord + user-named v1..v4 attributes; value classes unit/int/f32/f64/large/tiny/wide) " +
+			"0..40 vertices (10 % up to 300), 'large' phase: directed sizes 65 535/65 536/65 537/70 001/131 073 (thorough also 200 003/262 145/300 007) then random 2 000..20 000 (thorough ..60 000); 2 % of the roundtrip cases are the directed triangle mesh whose only attribute is TexCoord (vertex element without properties); any subset of Position/Normal/Color(RGB|RGBA)/FDC/Opacity/Scale/Rotation/TexCoord + user-named v1..v4 attributes; value classes unit/int/f32/f64/large/tiny/wide and, for 5 % of the unrestricted attributes, huge-whole = whole numbers of magnitude 2^53..3e38 exactly representable in float32, both signs) " +
 			"× one writer configuration (ply.Write, or a custom MeshWriter: per attribute an explicit property writer — value or pointer, canonical/alias/own property names, type Float/Double/UChar/Int as the values allow — or none; writers for absent attributes; WriteUnspecifiedProperties on/off), " +
-			"written in all three encodings. Non-trivial: triangle mesh with a vertex shared by ≥2 corners and ≥2 attributes, or cloud with ≥3 attributes. Distinct = distinct (topology, size buckets, index pattern, attribute/class mix, configuration) descriptors.",
+			"written in all three encodings (ply.SplatPly.Write: little-endian). fault-sequences: one case = a history of 3–8 operations in one goroutine mixing complete ordinary cases (ply.Write / custom MeshWriter / SplatPly, 1..5 000 vertices) with writes to a destination that fails for good after k bytes (refusing or accepting a part; k in the header, the first record, the middle of the vertex records, around 32 KiB absolute and from the body start, the face records, the last byte) and ply.ReadMesh from a source that fails after k bytes; non-trivial there: a good operation follows a failure inside the records. Non-trivial: triangle mesh with a vertex shared by ≥2 corners and ≥2 attributes, or cloud with ≥3 attributes. Distinct = distinct (topology, size buckets, index pattern, attribute/class mix, configuration) descriptors.",
 		Assumptions: []string{
 			"finite values; 8-bit storage only for attributes with values in [0,1]; Int storage only for integer-valued attributes inside int32 (DESIGN: out of reach otherwise)",
 			"a configuration always writes at least one vertex property when the mesh has vertices, except for the triangle mesh whose only attribute is TexCoord (its data lives in the face list; the vertex element then has records without properties)",
@@ -49,7 +49,10 @@ func Spec() *run.Spec {
 			"readback_source_kinds": 10, "readheader_source_kinds": 10,
 			"ascii_files_over_65536_vertices_read_back": 3, "binary_files_over_65536_vertices_read_back": 6,
 			"texcoord_only_triangle_meshes": 30, "ascii_files_with_empty_vertex_records_read_back": 15,
-			"texcoord_only_mesh_variants": 6,
+			"texcoord_only_mesh_variants":    6,
+			"huge_whole_columns(arity/type)": 8, "huge_whole_column_values_written": 2000,
+			"fault_histories": 500, "good_ops_after_a_failure_in_the_records": 300, "failed_writes_reported": 300, "failed_reads_reported": 100,
+			"write_fault_positions": 6, "write_fault_modes": 2, "write_fault_sites": 7, "read_fault_positions": 5,
 		},
 		Phases: []run.Phase{
 			{Name: "roundtrip", Cases: func(t string) int {
@@ -67,6 +70,12 @@ func Spec() *run.Spec {
 				}
 				return 240
 			}, Run: func(c *run.Ctx) run.Result { return runCase(c, genOpts{UCharScalar: true, MinN: 1}) }, Batch: 40, CPUBudgetS: 20},
+			{Name: "fault-sequences", Cases: func(t string) int {
+				if t == "thorough" {
+					return 20000
+				}
+				return 600
+			}, Run: faultSequences, Batch: 50, CPUBudgetS: 60},
 			{Name: "large", Cases: func(t string) int {
 				if t == "thorough" {
 					return 96
@@ -247,7 +256,13 @@ func runCase(c *run.Ctx, o genOpts) run.Result {
 		}
 	}
 	knownRaw := map[string]bool{}
-	srcRng := c.SubRng(0x50c)
+	srcRng := c.SubRng(0x50c + o.Salt)
+	for _, col := range s.cols {
+		if a := mc.Attrs[col.Attr]; a.Class == "huge-whole" {
+			res.SetAdd("huge_whole_columns(arity/type)", fmt.Sprintf("v%d/%s", a.Arity, col.Type))
+			res.Count("huge_whole_column_values_written", int64(mc.N))
+		}
+	}
 	if c.Replay {
 		defer func() {
 			if s.dir != "" {
@@ -261,6 +276,9 @@ func runCase(c *run.Ctx, o genOpts) run.Result {
 	}
 	for _, ei := range []int{1, 2, 0} {
 		enc := encodings[ei]
+		if cfg.Kind == "splat" && ei != 1 {
+			continue // SplatPly.Write is little-endian only
+		}
 		data := s.write(mesh, enc)
 		if data == nil {
 			continue
@@ -335,13 +353,10 @@ func (s *caseState) write(mesh modeling.Mesh, enc encoding) []byte {
 	buf := &bytes.Buffer{}
 	var err error
 	s.c.Note("write " + enc.name + " " + s.cfg.Kind)
-	p := run.Try(func() {
-		if s.cfg.Kind == "default" {
-			err = ply.Write(buf, mesh, enc.format)
-		} else {
-			err = s.cfg.meshWriter(enc.format).Write(mesh, buf)
-		}
-	})
+	if s.cfg.Kind == "splat" {
+		site = "ply.SplatPly.Write " + enc.name
+	}
+	p := run.Try(func() { err = s.cfg.writeTo(buf, mesh, enc.format) })
 	if p != nil {
 		class := "writer-panic"
 		if p.Runtime {
@@ -1029,4 +1044,15 @@ func readerClass(kind string) string {
 		return "source implementing io.ByteReader"
 	}
 	return "plain io.Reader source"
+}
+
+// writeTo: the one place where a configuration is turned into a call of the library's writers.
+func (cfg config) writeTo(w io.Writer, mesh modeling.Mesh, format ply.Format) error {
+	switch cfg.Kind {
+	case "default":
+		return ply.Write(w, mesh, format)
+	case "splat":
+		return ply.SplatPly{Mesh: mesh}.Write(w)
+	}
+	return cfg.meshWriter(format).Write(mesh, w)
 }
